@@ -97,7 +97,7 @@ TOKEN_RE = re.compile(r"""
   | (?P<number>\d+(?:\.\d+)?(?:[eE][+-]?\d+)?)
   | (?P<ident>[A-Za-z_][A-Za-z_0-9$]*)
   | (?P<fmt>\{[0-9a-zA-Z_]*\})
-  | (?P<op>::|<>|!=|>=|<=|\|\||->|=>|[-+*/%=<>(),.;\[\]{}:?@!&|~^])
+  | (?P<op>::|<>|!=|>=|<=|\|\||->|=>|//|[-+*/%=<>(),.;\[\]{}:?@!&|~^])
 """, re.X | re.S)
 
 
@@ -164,7 +164,7 @@ def load_macros(P: Program) -> Dict[str, Macro]:
         text = f.read_text()
         for m in re.finditer(r"CREATE\s+(?:OR\s+REPLACE\s+)?MACRO\s+([A-Za-z_]\w*)\s*\(([^)]*)\)\s*AS\s*(TABLE\b)?", text, re.I):
             name = m.group(1)
-            params = [p.strip().split(":=")[0].strip() for p in m.group(2).split(",") if p.strip()]
+            params = [p.strip().split(":=")[0].strip().split()[0] for p in m.group(2).split(",") if p.strip()]
             # body: up to the terminating `;` at paren depth 0 (strings respected)
             i = m.end()
             depth = 0
